@@ -44,7 +44,7 @@ VARIANTS = {
     "hook": ["-DKENTBECK_BPLUSTREE3_VERIF"],
     "asan": ["-DKENTBECK_BPLUSTREE3_VERIF", "-fsanitize=address", "-fno-omit-frame-pointer"],
 }
-HISTORY_TIMEOUT = int(os.environ.get("C_HARNESS_HIST_TIMEOUT", "120"))      # seconds per history
+HISTORY_TIMEOUT = int(os.environ.get("C_HARNESS_HIST_TIMEOUT", "45"))      # seconds per history
 PKG_DIR = {"hook": os.path.join(BUILD, "cpkg"), "plain": os.path.join(BUILD, "cpkg_plain"),
            "asan": os.path.join(BUILD, "cpkg_asan")}
 
@@ -706,6 +706,12 @@ def run_pass(variant, ops_path, trace_path, viol_path, oracle_filter=None):
         if timed_out or rc == -signal.SIGALRM:
             what = "timeout (non-termination: one history ran for more than %d s)" % HISTORY_TIMEOUT
             prop = "C12"
+            n_timeouts = sum(1 for e in extra if "non-termination" in e) + 1
+            if n_timeouts >= 3:
+                # enough to report; every further hanging history costs a watchdog period
+                extra.append("VIOL %s %s %s %s [%s build, embedding %s]" % (prop, hid, step, what, variant, hs[idx][0].split()[2]))
+                extra.append("VIOL C13 %s %s %s [%s build]" % (hid, step, what, variant))
+                break
         else:
             prop = "C13"
             if rc < 0:
@@ -719,6 +725,8 @@ def run_pass(variant, ops_path, trace_path, viol_path, oracle_filter=None):
                 summ = [l for l in err.splitlines() if "ERROR: AddressSanitizer" in l or l.startswith("SUMMARY:")]
                 what += " ASan: " + " | ".join(s.strip() for s in summ[:2])[:300]
         extra.append("VIOL %s %s %s %s [%s build, embedding %s]" % (prop, hid, step, what, variant, hs[idx][0].split()[2]))
+        if prop == "C12":
+            extra.append("VIOL C13 %s %s the call did not return: %s [%s build]" % (hid, step, what, variant))
         if prop == "C13":
             # a crash is also not "the result a dict gives" for the call that was running
             extra.append("VIOL C12 %s %s the call did not return: %s [%s build, embedding %s]" % (hid, step, what, variant, hs[idx][0].split()[2]))
